@@ -36,6 +36,7 @@ def run_batch(ctx, module, cfg, cases, observers, sigfn, negfn=None, chunk=30000
                 ctx.negative_controls([v], [n])
         for (o, i), ev, v in zip(buf, events, verdicts):
             ctx.evaluations += 1
+            _track(ctx, i, v)
             if v == "triv":
                 continue
             if v.startswith("EXT:"):
@@ -63,6 +64,9 @@ def run_batch(ctx, module, cfg, cases, observers, sigfn, negfn=None, chunk=30000
     flush()
 
 
+OPT_ENVS = ({}, {"PYTHONHASHSEED": "1", "TZ": "Pacific/Chatham", "LC_ALL": "C"}, {"PYTHONHASHSEED": "4242", "TZ": "America/St_Johns", "PYTHONUTF8": "0", "LANG": "POSIX"})
+
+
 def run_opt(ctx, module, cfg, obs, inner_cases, sigfn, flags_list=(("-O",), ("-OO",)), env=None, parts=6):
     """the cases of observer `obs` ("driver:key") evaluated in child interpreters started with other interpreter options
     (drivers/optchild), judged by the same acceptor; violations are reported per single case (replayable)"""
@@ -74,18 +78,20 @@ def run_opt(ctx, module, cfg, obs, inner_cases, sigfn, flags_list=(("-O",), ("-O
     if not inner_cases:
         return
     key = obs.split(":")[1]
-    for flags in flags_list:
+    for fi, flags in enumerate(flags_list):
+        cenv = OPT_ENVS[(fi + 1) % len(OPT_ENVS)]  # (each interpreter-option run also gets another hash seed / time zone / locale)
         step = max(1, -(-len(inner_cases) // parts))
         chunks = [inner_cases[k:k + step] for k in range(0, len(inner_cases), step)]
         with ThreadPoolExecutor(max_workers=parts) as ex:
-            res = list(ex.map(lambda ch: obs_opt({"obs": obs, "cases": ch, "flags": list(flags)}), chunks))
+            res = list(ex.map(lambda ch: obs_opt({"obs": obs, "cases": ch, "flags": list(flags), "env": cenv}), chunks))
         evs = [e for r in res for e in r]
         if len(evs) != len(inner_cases):
             raise MachineryError("opt child returned %d events for %d cases" % (len(evs), len(inner_cases)))
         verdicts = ctx.validate(module, cfg, evs, env=env, label=module + "-opt", nreal=len(evs))
         for i, ev, v in zip(inner_cases, evs, verdicts):
             ctx.evaluations += 1
-            inp = {"obs": obs, "cases": [i], "flags": list(flags)}
+            _track(ctx, i, v)
+            inp = {"obs": obs, "cases": [i], "flags": list(flags), "env": cenv}
             if v == "triv":
                 continue
             if v.startswith("EXT:"):
@@ -95,6 +101,27 @@ def run_opt(ctx, module, cfg, obs, inner_cases, sigfn, flags_list=(("-O",), ("-O
             else:
                 ctx.violation(v, sigfn(key, i, ev, v), {"observer": "opt", "input": inp})
     ctx.extra["interpreter_option_runs"] = ctx.extra.get("interpreter_option_runs", 0) + len(inner_cases) * len(flags_list)
+
+
+def _track(ctx, i, v):
+    """vacuity control per definition: which (mode, definition) pairs were offered to the judge, and for which of them at least one
+    case was actually judged (verdict other than "triv")"""
+    if not isinstance(i, dict):
+        return
+    lay = i.get("lay")
+    if isinstance(lay, dict) and "name" in lay:
+        key = "%s %s" % (("GET", "SET", "POLL", "?")[lay.get("m", 3) if lay.get("m", 3) in (0, 1, 2) else 3], lay["name"])
+    elif "name" in i and "m" in i:
+        key = "%s %s" % (("GET", "SET", "POLL", "?")[i["m"] if i["m"] in (0, 1, 2) else 3], i["name"])
+    else:
+        return
+    seen = ctx.__dict__.setdefault("_defs_seen", set())
+    judged = ctx.__dict__.setdefault("_defs_judged", set())
+    seen.add(key)
+    if v != "triv":
+        judged.add(key)
+    ctx.extra["definitions_offered"] = len(seen)
+    ctx.extra["definitions_never_judged"] = sorted(seen - judged)
 
 
 _OBS = None
